@@ -3,6 +3,9 @@
 import json, sys
 
 CHECKS = {
+ "C09": dict(engine="SIM", design="§4 C09", technique="exhaustive enumeration of worker-behaviour assignments x arrival orders x verbs against an unmodified main-process event loop (CommandHub::run) under syscall-level simulation with virtual time",
+   text="1056 (quick, W<=2) / 9000+ (thorough, W<=3) executions of an unmodified CommandHub::run() with fake workers on real channels and clients on the real unix command socket: verbs AddCluster / QueryClustersHashes / SoftStop / HardStop x every assignment of 8 behaviours (ok, failure, silent, close, duplicate, late, processing+ok, processing only) x both arrival orders, plus two concurrent clients. Exactly one final answer per request; OK only if every worker acknowledged in time; answered at once or by worker_timeout + one loop turn of virtual time; no panic, no spin; run() returns.",
+   note="LoadState, QueryMetrics and Status verbs are not driven yet. A soft stop with a worker that never finishes is not judged (no deadline by design). Seven open known findings: stop and query verbs answer OK whatever the workers said; a soft stop hangs for ever when a worker's channel closes."),
  "C08": dict(engine="SIM", design="§4 C08", technique="exhaustive enumeration of worker request sequences (length <= 2 over a ~107-command alphabet from 4 bootstrap states) against an unmodified worker under syscall-level simulation with virtual time",
    text="4608 (quick) / ~47000 (thorough) request sequences are sent over the real command channel to an unmodified Server::run(): every command of the alphabet from 4 bootstrap states and pairs of commands, each followed by three queries, Status, TCP connection probes and a SoftStop. Exactly one final status per request id; the query view equals a ConfigState fed the accepted commands; listening sockets accept iff the view says active; the SoftStop is acknowledged once and run() returns.",
    note="No traffic is interleaved with the commands (that belongs to C10/C16). Three open known findings, all about slab accounting of listeners that never went through DeactivateListener."),
@@ -55,7 +58,6 @@ CHECKS = {
 
 PLANNED = {
  "C03": "SIM/ENUM check not built yet; planned, see DESIGN.md §4 C03",
- "C09": "SIM engine (CommandHub) not built yet; planned, see DESIGN.md §4 C09",
  "C13": "SIM engine not built yet; planned, see DESIGN.md §4 C13",
  "C14": "SIM engine not built yet; planned, see DESIGN.md §4 C14",
 }
